@@ -1071,6 +1071,21 @@ func c11Run(srv string, alloc, rich bool, ops []c11Op, nFull, partial int, clean
 		}
 		_ = h
 	}
+	if partial < 0 && !aborted {
+		// instead of request nFull: one complete frame that does not decode (partial = -1: a packet type no server knows;
+		// -2: an OPEN whose path length points beyond the packet), then the connection is dropped
+		bad := []byte{0, 0, 0, 5, 0xF0, 0, 0, 0, 1}
+		if partial == -2 {
+			bad = []byte{0, 0, 0, 10, fxpOpen, 0, 0, 0x23, 0x29, 0, 0, 0, 200, 'x'}
+		}
+		cli.w.SetWriteDeadline(time.Now().Add(10 * time.Second))
+		cli.w.Write(bad)
+		select { // the server ends the session by itself on such a packet
+		case <-done:
+			done <- nil
+		case <-time.After(300 * time.Millisecond):
+		}
+	}
 	if partial > 0 && !aborted && nFull < len(ops) {
 		frame, _, _ := build(nFull)
 		if partial < len(frame) {
@@ -1147,7 +1162,7 @@ func runC11(c *Ctx) {
 	c.Rule("generated sessions of 6-25 raw requests (OPEN read/write/read+write and OPENDIR on existing, missing and handler-refused names; READ/WRITE/READDIR/FSTAT/FSETSTAT/CLOSE on live, " +
 		"closed and never-issued handles; STAT/LSTAT/READLINK in between; about half of the sessions contain: open an object whose Close() returns an error - names with \"cerr\" - CLOSE, use of the dead handle, CLOSE again), each request answered before the next; every session is ended cleanly, after request i for every i, and inside its last packet; " +
 		"os server: descriptors counted in /proc/self/fd after every request and after Serve returned; request server: instrumented reader/writer/read-writer/lister objects and recorded contexts " +
-		"(OpenFileWriter+LstatFileLister in sessions with bit 1 set, allocator in odd sessions); non-trivial = at least one open succeeded and (a handle was still open at the end or a closed/never-issued handle was used)")
+		"(OpenFileWriter+LstatFileLister in sessions with bit 1 set, allocator in odd sessions); kind badpkt: after every number of requests one complete frame that does not decode (unknown type / OPEN with an impossible path length) instead of the next request, then the connection is dropped; non-trivial = at least one open succeeded and (a handle was still open at the end or a closed/never-issued handle was used)")
 	root, err := os.MkdirTemp("", "vh-c11-")
 	if err != nil {
 		c.Diag("mktemp: %v", err)
@@ -1230,6 +1245,13 @@ func runC11(c *Ctx) {
 			}
 			for _, k := range cuts {
 				emit("mid", k, c11Run(srv, alloc, rich, ops, len(ops)-1, k, false, work))
+			}
+			// a well-framed packet that does not decode, after every number of requests (handles may be open at that point)
+			for i := 0; i <= len(ops); i++ {
+				if !c.Thorough() && i%2 == 1 && i != len(ops) {
+					continue
+				}
+				emit("badpkt", i, c11Run(srv, alloc, rich, ops, i, -1-(i%2), false, work))
 			}
 		}
 	}
